@@ -1,6 +1,8 @@
 (** VPNv4 / VPNv6 NLRI (yabgp/message/attribute/nlri/mpls_vpn.py) and their MP_REACH /
     MP_UNREACH branches.  Prefix octets: NLRI.construct_prefix_v4 / construct_prefix_v6 as
-    repaired by build/proposed/c07-1-construct-prefix-v6.diff and c07-2-construct-prefix-v4-zero.diff. *)
+    repaired by build/proposed/c07-1-construct-prefix-v6.diff and c07-2-construct-prefix-v4-zero.diff;
+    the label parser sees only the octets of the route being decoded
+    (build/proposed/c11-label-stack-bound.diff). *)
 From YV Require Import lib.Base gen.Consts model.YMp model.YLabel.
 
 (** NLRI.construct_prefix_v4(masklen, prefix): 4 packed octets cut to 3 / 2 / 1 / 0 *)
@@ -47,7 +49,7 @@ Fixpoint parse_vpn (v6 withdraw : bool) (fuel : nat) (d : bytes) : res (list pro
       | [] => Ok []
       | bitlen :: _ =>
           let bl := N.to_nat (ceil8 bitlen) in
-          let labels := if withdraw then [WITHDRAW_LABEL] else parse_labels (drop 1 d) in
+          let labels := if withdraw then [WITHDRAW_LABEL] else parse_labels (slice 1 (bl + 1) d) in
           bind (parse_rd (slice 4 12 d)) (fun r =>
           let p := slice 12 (bl + 1) d in
           bind (if v6 then of_int (unbe (pad_to 16 p))
